@@ -501,56 +501,118 @@ theorem failure_as_absent_import (d : String) (ign : Bool) (u : Option String) (
 def _root_.Wp.Res.FontOut.sameEffect (a b : FontOut) : Prop :=
   a.installed = b.installed ∧ a.written = b.written ∧ a.warned = b.warned ∧ a.err = b.err
 
-private theorem fontLoop_frame (fetcher : Fetcher) (srcs : List FontSrc) (cl : Bool) (a b : FontOut)
-    (h : a.sameEffect b) : (fontLoop fetcher cl srcs a).sameEffect (fontLoop fetcher cl srcs b) := by
-  induction srcs generalizing cl a b with
+/-- The same, not counting the bytes written to the private temp file (a fetched but unusable font
+is written there before fontconfig rejects it). -/
+def _root_.Wp.Res.FontOut.sameOutcome (a b : FontOut) : Prop :=
+  a.installed = b.installed ∧ a.warned = b.warned ∧ a.err = b.err
+
+private theorem fontLoop_frame (fetcher : Fetcher) (srcs : List FontSrc) (a b : FontOut)
+    (h : a.sameEffect b) : (fontLoop fetcher srcs a).sameEffect (fontLoop fetcher srcs b) := by
+  induction srcs generalizing a b with
   | nil => obtain ⟨h1, h2, _, h4⟩ := h; exact ⟨h1, h2, rfl, h4⟩
   | cons src rest ih =>
     obtain ⟨h1, h2, h3, h4⟩ := h
     simp only [fontLoop]
     split
-    · exact ⟨h1, h2, h3, rfl⟩
-    · exact ih cl a b ⟨h1, h2, h3, h4⟩
+    · exact ih a b ⟨h1, h2, h3, h4⟩
     · rename_i url _
       cases hfe : fetch (fetcher url) url readAll with
       | mk evs got =>
         simp only
         cases got with
-        | error e => exact ih _ _ _ ⟨h1, h2, h3, h4⟩
+        | error e => exact ih _ _ ⟨h1, h2, h3, h4⟩
         | ok content =>
           simp only
           split
-          · exact ih _ _ _ ⟨h1, h2, h3, h4⟩
+          · exact ih _ _ ⟨h1, h2, h3, h4⟩
           · split
             · exact ⟨rfl, by simp [h2], h3, h4⟩
-            · exact ih _ _ _ ⟨h1, by simp [h2], h3, h4⟩
+            · exact ih _ _ ⟨h1, by simp [h2], h3, h4⟩
 
-/-- `failure_as_absent` (@font-face `src`): an entry whose fetch fails *at the fetcher* (any
-exception), a broken URL, an `internal` or an unmatched `local()` entry is skipped: the fonts
-installed, the bytes written, the warning and the outcome are those of the `src` list without it.
-(For an entry whose fetch *succeeds* with unusable data this is false when a `local()` entry
-follows: `Witness.C20.font_data_then_local_raises`.) -/
-theorem failure_as_absent_font_src_partial (fetcher : Fetcher) (cl : Bool) (src : FontSrc) (rest : List FontSrc)
-    (acc : FontOut)
-    (h : src = .internal ∨ src = .external none ∨ (∃ u e, src = .external (some u) ∧ fetcher u = .raises e) ∨
-         (∃ n m u, src = .«local» n false m u)) :
-    (fontLoop fetcher cl (src :: rest) acc).sameEffect (fontLoop fetcher cl rest acc) := by
-  have refl : ∀ o : FontOut, o.sameEffect o := fun o => ⟨rfl, rfl, rfl, rfl⟩
-  rcases h with h | h | ⟨u, e, h, hf⟩ | ⟨n, m, u, h⟩
-  · subst h; simp only [fontLoop]; exact refl _
-  · subst h; simp only [fontLoop]; exact refl _
-  · subst h
-    simp only [fontLoop, hf, fetch]
-    have hb : (Ev.body == Ev.call u) = false := rfl
-    have hc : (cl || [Ev.call u].contains Ev.body) = cl := by
-      cases cl <;> simp [List.contains, List.elem, hb]
-    rw [hc]
-    exact fontLoop_frame fetcher rest cl _ _ ⟨rfl, rfl, rfl, rfl⟩
-  · subst h; simp only [fontLoop]; exact refl _
+private theorem fontLoop_frame_outcome (fetcher : Fetcher) (srcs : List FontSrc) (a b : FontOut)
+    (h : a.sameOutcome b) : (fontLoop fetcher srcs a).sameOutcome (fontLoop fetcher srcs b) := by
+  induction srcs generalizing a b with
+  | nil => obtain ⟨h1, _, h3⟩ := h; exact ⟨h1, rfl, h3⟩
+  | cons src rest ih =>
+    obtain ⟨h1, h2, h3⟩ := h
+    simp only [fontLoop]
+    split
+    · exact ih a b ⟨h1, h2, h3⟩
+    · rename_i url _
+      cases hfe : fetch (fetcher url) url readAll with
+      | mk evs got =>
+        simp only
+        cases got with
+        | error e => exact ih _ _ ⟨h1, h2, h3⟩
+        | ok content =>
+          simp only
+          split
+          · exact ih _ _ ⟨h1, h2, h3⟩
+          · split
+            · exact ⟨rfl, h2, h3⟩
+            · exact ih _ _ ⟨h1, h2, h3⟩
 
-example : (fontLoop (fun _ => .raises ⟨"OSError", "x"⟩) false
+/-- Does this `src` entry end with a font registered in fontconfig? -/
+def srcInstalls (fetcher : Fetcher) (src : FontSrc) : Bool :=
+  match src.target with
+  | none => false
+  | some url =>
+    match (fetch (fetcher url) url readAll).2 with
+    | .error _ => false
+    | .ok content => !(content.woff && !content.woffOk) && content.fontOk
+
+/-- `failure_as_absent` (@font-face `src`), full strength since the repair of
+`font-data-then-local-typeerror`: an entry that does not end with an installed font — broken URL,
+`internal`, unmatched `local()`, a fetch that raises / is not a dict / cannot be read, a woff that
+does not decode, data fontconfig rejects — is skipped: the font installed, the warning and the
+outcome are those of the `src` list without it, wherever it stands and whatever follows. -/
+theorem failure_as_absent_font_src (fetcher : Fetcher) (src : FontSrc) (rest : List FontSrc) (acc : FontOut)
+    (h : srcInstalls fetcher src = false) :
+    (fontLoop fetcher (src :: rest) acc).sameOutcome (fontLoop fetcher rest acc) := by
+  have refl : ∀ o : FontOut, o.sameOutcome o := fun o => ⟨rfl, rfl, rfl⟩
+  unfold srcInstalls at h
+  simp only [fontLoop]
+  split
+  · exact refl _
+  · rename_i url hurl
+    rw [hurl] at h
+    simp only at h
+    cases hfe : fetch (fetcher url) url readAll with
+    | mk evs got =>
+      rw [hfe] at h
+      simp only at h ⊢
+      cases got with
+      | error e => exact fontLoop_frame_outcome fetcher rest _ _ ⟨rfl, rfl, rfl⟩
+      | ok content =>
+        simp only at h ⊢
+        split
+        · exact fontLoop_frame_outcome fetcher rest _ _ ⟨rfl, rfl, rfl⟩
+        · rename_i hw
+          have hfo : content.fontOk = false := by
+            cases hb : content.fontOk with
+            | false => rfl
+            | true => simp [hb] at h; simp [h] at hw
+          simp only [hfo]
+          exact fontLoop_frame_outcome fetcher rest _ _ ⟨rfl, rfl, rfl⟩
+
+/-- When the fetch itself fails (the fetcher raises — any exception), not even the temp file differs. -/
+theorem failure_as_absent_font_fetch (fetcher : Fetcher) (u : String) (e : Exc) (rest : List FontSrc) (acc : FontOut)
+    (hf : fetcher u = .raises e) :
+    (fontLoop fetcher (.external (some u) :: rest) acc).sameEffect (fontLoop fetcher rest acc) := by
+  simp only [fontLoop, FontSrc.target, hf, fetch]
+  exact fontLoop_frame fetcher rest _ _ ⟨rfl, rfl, rfl, rfl⟩
+
+example : (fontLoop (fun _ => .raises ⟨"OSError", "x"⟩)
       [.external (some "http://a/f.woff"), .«local» "Nope" false false "file:///none"] {}).warned = true := by
   decide
+
+/-- Regression (finding `font-data-then-local-typeerror`, repaired in 829d022): a fetched but unusable
+font followed by a `local()` entry no longer raises; the entry is skipped and the next one is tried. -/
+example :
+    let fetcher : Fetcher := fun _ => .resp ⟨true, none, none, none, ⟨25, false, none, false, true, false⟩⟩
+    (fontLoop fetcher [.external (some "http://a.test/f.ttf"), .«local» "Foo" true false "file:///none"] {}).err = none ∧
+    (fontLoop fetcher [.external (some "http://a.test/f.ttf"), .«local» "Foo" true false "file:///none"] {}).warned = true ∧
+    srcInstalls fetcher (.external (some "http://a.test/f.ttf")) = false := by decide
 
 /-! ### attachments -/
 
@@ -604,47 +666,29 @@ theorem attachment_total_partial (fetcher : Fetcher) (url : String) (h : Fetched
       subst hbody
       exact ⟨some r.content.id, rfl⟩
 
-/-- An entry of a `src` list that can raise: a `local()` entry for which fontconfig returns a match
-(it always returns the closest font). -/
-def isFoundLocal : FontSrc → Bool
-  | .«local» _ found _ _ => found
-  | _ => false
-
-/- Full statement (false of the current code, see `Witness.C20.font_data_then_local_raises`): the
-   same without the hypothesis on `local()` entries. -/
-/-- `add_font_face` never raises on a `src` list of `url()` / broken / internal entries, whatever
-the fetcher does for each URL (raise, not a dict, unreadable stream, garbage, valid font). -/
-theorem font_loop_total_partial (fetcher : Fetcher) (srcs : List FontSrc) (cl : Bool) (acc : FontOut)
-    (hsrc : ∀ s ∈ srcs, isFoundLocal s = false) (hacc : acc.err = none) :
-    (fontLoop fetcher cl srcs acc).err = none := by
-  induction srcs generalizing cl acc with
+/-- `add_font_face` never raises, whatever the `src` list and whatever the fetcher does for each URL
+(raise, not a dict, unreadable stream, garbage, valid font).  Full strength since 829d022. -/
+theorem font_loop_total (fetcher : Fetcher) (srcs : List FontSrc) (acc : FontOut) (hacc : acc.err = none) :
+    (fontLoop fetcher srcs acc).err = none := by
+  induction srcs generalizing acc with
   | nil => simpa [fontLoop] using hacc
   | cons s rest ih =>
-    have hrest : ∀ s' ∈ rest, isFoundLocal s' = false := fun s' hs' => hsrc s' (by simp [hs'])
-    have hs := hsrc s (by simp)
     simp only [fontLoop]
     split
-    · rename_i e he
-      cases s with
-      | external u => simp at he
-      | internal => simp at he
-      | «local» n found nm uri =>
-        simp only [isFoundLocal] at hs
-        simp [hs] at he
-    · exact ih _ _ hrest hacc
+    · exact ih _ hacc
     · rename_i url _
       cases fetch (fetcher url) url readAll with
       | mk evs got =>
         simp only
         cases got with
-        | error e => exact ih _ _ hrest (by simpa using hacc)
+        | error e => exact ih _ (by simpa using hacc)
         | ok content =>
           simp only
           split
-          · exact ih _ _ hrest (by simpa using hacc)
+          · exact ih _ (by simpa using hacc)
           · split
             · simpa using hacc
-            · exact ih _ _ hrest (by simpa using hacc)
+            · exact ih _ (by simpa using hacc)
 
 mutual
   /-- Every fetch reachable from the item is absorbed (raises at the fetcher, or delivers bytes). -/
@@ -1040,38 +1084,34 @@ private theorem metas_total (fetcher : Fetcher) (urls : List String)
       refine ⟨match v with | some c => c :: vs | none => vs, ?_⟩
       cases v <;> simp [hvs, Except.map]
 
-private theorem interp_total (fetcher : Fetcher) (acts : List Act) (st : FontState)
-    (h : ∀ face, Act.font face ∈ acts → ∀ s ∈ face.srcs, isFoundLocal s = false) :
+private theorem interp_total (fetcher : Fetcher) (acts : List Act) (st : FontState) :
     (Doc.interp fetcher st acts).2.2.2 = none := by
   induction acts generalizing st with
   | nil => rfl
   | cons a rest ih =>
-    have hrest : ∀ face, Act.font face ∈ rest → ∀ s ∈ face.srcs, isFoundLocal s = false :=
-      fun face hf => h face (by simp [hf])
     cases a with
-    | rule i => simp only [Doc.interp]; exact ih st hrest
-    | ev e => simp only [Doc.interp]; exact ih st hrest
+    | rule i => simp only [Doc.interp]; exact ih st
+    | ev e => simp only [Doc.interp]; exact ih st
     | font face =>
       simp only [Doc.interp]
       have herr : (addFontFace fetcher st face).2.err = none := by
         unfold addFontFace
         split
         · rfl
-        · exact font_loop_total_partial fetcher face.srcs false {} (h face (by simp)) rfl
+        · exact font_loop_total fetcher face.srcs {} rfl
       cases ha : addFontFace fetcher st face with
       | mk st' out =>
         rw [ha] at herr
         simp only at herr
         simp only [herr]
-        exact ih st' hrest
+        exact ih st'
 
 /-- A document on which the property must hold in full: every fetch it triggers either raises at the
-fetcher or delivers bytes (any bytes), no `@font-face` combines `local()` with `url()` sources in a
-way that reaches the `local()` lookup (`isFoundLocal`), and no image comes with a `file:` location. -/
+fetcher or delivers bytes (any bytes), and no image comes with a `file:` location.  (`@font-face`
+rules need no hypothesis since 829d022.) -/
 structure PlainDocument (d : Doc.Document) : Prop where
   styles : ∀ el ∈ d.styles, (el.isLink = false → itemsAllAbsorbed el.items = true) ∧
                             (el.isLink = true → sheetAllAbsorbed el.target = true)
-  fonts : ∀ face, Act.font face ∈ (findStylesheets d.device d.styles).acts → ∀ s ∈ face.srcs, isFoundLocal s = false
   images : ∀ r ∈ d.images, ∀ u, r.url = some u → Fetched.absorbed (d.fetcher u) = true ∧ notFileLocation d.fetcher u
   metas : ∀ u ∈ d.metaAttachments, Fetched.absorbed (d.fetcher u) = true
   annots : ∀ u ∈ d.annotAttachments, Fetched.absorbed (d.fetcher u) = true
@@ -1082,7 +1122,7 @@ fetches fails and in whatever mode (exception, empty, truncated, wrong type, HTM
 theorem document_completes_partial (d : Doc.Document) (h : PlainDocument d) :
     (Doc.run d).render = .ok () ∧ (Doc.run d).write = .ok () ∧ (Doc.run d).opens = [] := by
   have hcss := find_stylesheets_total_partial d.device d.styles h.styles
-  have hinterp := interp_total d.fetcher (findStylesheets d.device d.styles).acts {} h.fonts
+  have hinterp := interp_total d.fetcher (findStylesheets d.device d.styles).acts {}
   have hrefs := runRefs_total d.fetcher d.opts d.images [] (by intro k img hm; simp at hm) h.images
   obtain ⟨as, has⟩ := annots_total d.fetcher d.annotAttachments [] h.annots
   obtain ⟨ms, hms⟩ := metas_total d.fetcher d.metaAttachments h.metas
@@ -1132,23 +1172,11 @@ def failingDocument : Doc.Document where
   fs := fun _ => none
 
 example : PlainDocument failingDocument := by
-  refine ⟨?_, ?_, ?_, ?_, ?_⟩
+  refine ⟨?_, ?_, ?_, ?_⟩
   · intro el hel
     simp only [failingDocument, List.mem_cons, List.not_mem_nil, or_false] at hel
     rcases hel with h | h <;> subst h <;>
       simp [itemsAllAbsorbed, itemAllAbsorbed, sheetAllAbsorbed, Fetched.absorbed]
-  · intro face hface s hs
-    have : (findStylesheets failingDocument.device failingDocument.styles).fonts =
-        [⟨1, [.external (some "http://a.test/f.woff")]⟩] := by decide
-    have hmem : face ∈ (findStylesheets failingDocument.device failingDocument.styles).fonts := by
-      simp only [Out.fonts, List.mem_filterMap]
-      exact ⟨_, hface, rfl⟩
-    rw [this] at hmem
-    simp only [List.mem_cons, List.not_mem_nil, or_false] at hmem
-    subst hmem
-    simp only [List.mem_cons, List.not_mem_nil, or_false] at hs
-    subst hs
-    rfl
   · intro r hr u hu
     refine ⟨rfl, ?_⟩
     intro resp hresp
@@ -1163,51 +1191,33 @@ example : (Doc.run failingDocument).rules = [3] ∧ (Doc.run failingDocument).bo
 
 /-- `every_loader_uses_fetcher` (fonts): the `src` loop depends on the fetcher only through its
 answers for the URLs of the list (`url(...)` entries and the files matched by `local(...)`). -/
-def srcUrl : FontSrc → Option String
-  | .external u => u
-  | .internal => none
-  | .«local» _ _ _ uri => some uri
-
-theorem fonts_depend_on_fetcher_at_urls (f g : Fetcher) (srcs : List FontSrc) (cl : Bool) (acc : FontOut)
-    (h : ∀ s ∈ srcs, ∀ u, srcUrl s = some u → f u = g u) :
-    fontLoop f cl srcs acc = fontLoop g cl srcs acc := by
-  induction srcs generalizing cl acc with
+theorem fonts_depend_on_fetcher_at_urls (f g : Fetcher) (srcs : List FontSrc) (acc : FontOut)
+    (h : ∀ s ∈ srcs, ∀ u, s.target = some u → f u = g u) :
+    fontLoop f srcs acc = fontLoop g srcs acc := by
+  induction srcs generalizing acc with
   | nil => rfl
   | cons s rest ih =>
-    have hrest : ∀ s' ∈ rest, ∀ u, srcUrl s' = some u → f u = g u :=
+    have hrest : ∀ s' ∈ rest, ∀ u, s'.target = some u → f u = g u :=
       fun s' hs' u hu => h s' (by simp [hs']) u hu
     simp only [fontLoop]
     split
-    · rfl
-    · exact ih _ _ hrest
+    · exact ih _ hrest
     · rename_i url hurl
       have hfg : f url = g url := by
-        apply h s (by simp) url
-        cases s with
-        | external u => simpa [srcUrl] using hurl
-        | internal => simp at hurl
-        | «local» n found nm uri =>
-          simp only [srcUrl]
-          by_cases hf : found = true
-          · by_cases hc : cl = true
-            · simp [hf, hc] at hurl
-            · by_cases hn : nm = true
-              · simp [hf, hc, hn] at hurl; simp [hurl]
-              · simp [hf, hc, hn] at hurl
-          · simp [hf] at hurl
+        exact h s (by simp) url hurl
       rw [hfg]
       cases fetch (g url) url readAll with
       | mk evs got =>
         simp only
         cases got with
-        | error e => exact ih _ _ hrest
+        | error e => exact ih _ hrest
         | ok content =>
           simp only
           split
-          · exact ih _ _ hrest
+          · exact ih _ hrest
           · split
             · rfl
-            · exact ih _ _ hrest
+            · exact ih _ hrest
 
 /-- `every_loader_uses_fetcher` (attachments). -/
 theorem attachment_depends_on_fetcher_at_url (f g : Fetcher) (url : String) (h : f url = g url) :
